@@ -4,6 +4,7 @@ import Larking.Model.Status
 import Larking.Gen.Grpc
 import Larking.Model.Timeout
 import Larking.Model.Metadata
+import Larking.Model.StreamCodec
 namespace Larking.Driver
 open Larking.Status
 
@@ -51,7 +52,52 @@ def handleC14C15 : List String → Option String
   | ["mdout", e] => (parseMD e).map fun md => showMD (Metadata.outgoing Gen.reservedHeaders md)
   | _ => none
 
-def handlers : List (List String → Option String) := [handleC05, handleC14C15]
+def natList (s : String) : List Nat :=
+  if s.isEmpty then [] else (s.splitOn ",").filterMap (·.toNat?)
+
+def showErr : Option RErr → String
+  | none => "nil"
+  | some e => e.name
+
+def showResult (r : Codec.Result) (e : Env) : String :=
+  s!"ok dst={toHex r.dst.data} n={r.n} err={showErr r.err} rest={toHex e.data}"
+
+/-- readnext <codec> <limit> <carry hex> <spare0> <wire hex> <sched> <eofWithData> <rooms> -/
+def handleC17 : List String → Option String
+  | ["readnext", codec, limit, carry, spare, wire, sched, eofd, rooms] => do
+      let c ← hexArg carry
+      let w ← hexArg wire
+      let lim ← limit.toNat?
+      let sp ← spare.toNat?
+      let e : Env := { data := w, sched := natList sched, eofWithData := eofd == "1", grows := natList rooms }
+      let b : Buf := { data := c, spare := sp }
+      match codec with
+      | "proto" =>
+          match Codec.protoReadNext e b lim with
+          | (.ok r, e') => pure (showResult r e')
+          | (.panic _, _) => pure "panic"
+          | (.err k, _) => pure ("err " ++ k)
+      | "json" => let (r, e') := Codec.jsonReadNext e b lim; pure (showResult r e')
+      | "body" => let (r, e') := Codec.bodyReadNext e b lim; pure (showResult r e')
+      | "readall" =>
+          let (b', err, e') := Codec.readAll e b lim
+          pure s!"ok dst={toHex b'.data} n={b'.data.length} err={showErr err} rest={toHex e'.data}"
+      | _ => none
+  | ["writenext", codec, m] => do
+      let b ← hexArg m
+      match codec with
+      | "proto" => pure (toHex (Codec.protoWriteNext b))
+      | "json" => pure (toHex (Codec.jsonWriteNext b))
+      | "body" => pure (toHex b)
+      | _ => none
+  | ["growcap", a, b] => do pure (toString (Codec.growcap (← a.toNat?) (← b.toNat?)))
+  | ["varint", h] => (hexArg h).map fun b =>
+      match Codec.getVarint b with
+      | some (v, k) => s!"ok {v} {k}"
+      | none => "err"
+  | _ => none
+
+def handlers : List (List String → Option String) := [handleC05, handleC14C15, handleC17]
 
 def handle (args : List String) : String :=
   match handlers.findSome? (fun h => h args) with
